@@ -283,6 +283,16 @@ func (c30Runner) Step(t []string, o *Oracle) string {
 		o.Check(good, "roundtrip-differs", "%d packets written, read back %d packets, status %s (sizes %v)", len(ps), len(got), st, sizes)
 		got1, st1 := c30Read(w, []int{1})
 		o.Check(c30Show(got, st) == c30Show(got1, st1), "chunking-changes-result", "sizes %v vs 1-byte chunks differ", sizes)
+		for _, p := range ps {
+			switch {
+			case len(p.payload) == c30PayloadMax:
+				o.Count("rt-payload-exactly-max")
+			case len(p.payload) == c30PayloadMax-1:
+				o.Count("rt-payload-max-minus-1")
+			case len(p.payload) > c30PayloadMax:
+				o.Count("rt-payload-over-max-truncated")
+			}
+		}
 		o.Count(fmt.Sprintf("rt-%dpkts", len(ps)))
 		return c30Show(got, st)
 	case "cor":
@@ -479,8 +489,25 @@ func c30Crafted(g *Gen) (ps []c30Pkt, pos int, nb int) {
 	return []c30Pkt{a, b}, 29, k
 }
 
+// c30MaxCases: round trips at the payload maximum (every run, quick included):
+// exactly DefaultPacketPayloadMax must be written AND accepted by the reader,
+// max-1 likewise, max+1 is cut to max by NewPacket. Large chunks only (model cost).
+func c30MaxCases(g *Gen) int {
+	lens := []int{c30PayloadMax, g.Pick(c30PayloadMax-1, c30PayloadMax+1)}
+	if g.Tier == "thorough" {
+		lens = []int{c30PayloadMax, c30PayloadMax - 1, c30PayloadMax + 1}
+	}
+	for _, n := range lens {
+		p := c30GenPkt(g, true)
+		p.payload = g.Bytes(n)
+		sz := []string{"65536", "100000", "65536,131072", "1048616"}[g.Intn(4)]
+		g.Emit("rt %s %s", sz, p.String())
+	}
+	return len(lens)
+}
+
 func c30Gen(g *Gen) {
-	emitted := 0
+	emitted := c30MaxCases(g)
 	for emitted < g.N {
 		switch r := g.Intn(100); {
 		case r < 30:
